@@ -421,6 +421,41 @@ def analyse_copy(ctx: Any, prog: Program, modname: str, clsname: str, meth: str,
                     ctx.check('C09.P2', st == 'fresh', mod, n.elt, f'{sub}.{sf} of the rebuilt vertex aliases the source: {why}', func=qual, text=f'{sub}.{sf} <- {ast.unparse(e)[:40]}')
 
 
+def p4_shared_child_list(ctx: Any, kv: Any) -> None:
+    """Keyvalues.copy and the helpers it calls: when a node's `_value` is first taken over from the source (`new._value = old._value`)
+    and only replaced by a freshly built list under a condition, that condition must be implied by "the value is a list".  A
+    conjunct testing the truth / length of the list leaves the *empty* list shared between the copy and the original."""
+    ms = kv.methods('Keyvalues')
+    fns = [ms['copy']]
+    for c in ast.walk(ms['copy']):
+        if isinstance(c, ast.Call) and isinstance(c.func, ast.Attribute) and c.func.attr in ms and c.func.attr != 'copy' and ms[c.func.attr] not in fns:
+            fns.append(ms[c.func.attr])
+    alias = [n for f in fns for n in ast.walk(f) if isinstance(n, ast.Assign) and isinstance(n.targets[0], ast.Attribute) and n.targets[0].attr == '_value'
+             and isinstance(n.value, ast.Attribute) and n.value.attr == '_value' and dotted(n.value.value) != dotted(n.targets[0].value)]
+    # an alias assignment that sits in the else-branch of an isinstance(list) test only carries non-list values: not a sharing site
+    def under_list_else(n: ast.AST) -> bool:
+        p = kv.parents.get(n)
+        while p is not None and not isinstance(p, ast.FunctionDef):
+            if isinstance(p, ast.If) and 'isinstance' in ast.unparse(p.test) and 'list' in ast.unparse(p.test) and any(n is x or any(n is y for y in ast.walk(x)) for x in p.orelse):
+                return True
+            p = kv.parents.get(p)
+        return False
+    alias = [n for n in alias if not under_list_else(n)]
+    if not alias:
+        return
+    for f in fns:
+        for n in ast.walk(f):
+            if not isinstance(n, ast.If):
+                continue
+            replaces = [st for st in n.body for x in ast.walk(st) if isinstance(x, ast.Assign) and any(isinstance(t, ast.Attribute) and t.attr == '_value' for t in x.targets) and isinstance(x.value, (ast.ListComp, ast.List, ast.Call))]
+            if not replaces or not isinstance(n.test, ast.BoolOp) or not isinstance(n.test.op, ast.And):
+                continue
+            weak = [v for v in n.test.values if (isinstance(v, ast.Attribute) and v.attr == '_value') or (isinstance(v, ast.Call) and dotted(v.func) == 'len') or (isinstance(v, ast.Compare) and 'len(' in ast.unparse(v))]
+            if weak and any('isinstance' in ast.unparse(v) for v in n.test.values):
+                ctx.check('C09.P4', False, kv, n, f'`{ast.unparse(alias[0])}` lets the copy start with the source\'s child list, and it is only replaced when `{ast.unparse(n.test)}`: an *empty* block keeps the very same list object '
+                          'in the copy and the original, so children added to one appear in the other', func='Keyvalues.copy', text='child list replaced for every block (also empty ones)')
+
+
 def run(ctx: Any, prog: Program) -> None:
     vm = prog.module('vmf')
     kv = prog.module('keyvalues')
@@ -430,6 +465,7 @@ def run(ctx: Any, prog: Program) -> None:
     ctx.rule('C09.P2', 'mutable fields reach the copy only through copying expressions', floor=20)
     ctx.rule('C09.P3', 'non in-place operators do not mutate their operands', floor=15)
     ctx.rule('C09.P4', 'Keyvalues.copy is deep; +, += and extend add copies of the other side\'s children', floor=4)
+    p4_shared_child_list(ctx, kv)
 
     for modname, clsname, meth, extra in COPIES:
         analyse_copy(ctx, prog, modname, clsname, meth, extra)
